@@ -254,6 +254,74 @@ Definition wiring_ok : bool := forallb (fun w => fst (snd w) && snd (snd w)) sit
 Definition wiring_covers : bool :=
   forallb (fun s => existsb (fun w => text_eqb (fst w) (s_func s ++ [46%N] ++ s_var s)) sites_wiring) sites.
 
+(* discriminators (regenerated): every parameter the discriminator of the entry-carrying action depends on also reaches
+   the entry's own discriminator -- the entry key determines the conflict key, so two statements that do not conflict
+   never share a slot of the introspector *)
+Definition disc_row_ok (r : text * (list text * list text)) : bool :=
+  forallb (fun p => mem_text p (snd (snd r))) (fst (snd r)).
+Definition disc_ok : bool := forallb disc_row_ok sites_disc.
+Definition disc_covers : bool :=
+  forallb (fun s => existsb (fun r => text_eqb (fst r) (s_func s ++ [46%N] ++ s_var s)) sites_disc) sites.
+
+(* ---- action info (config/actions.py: action_method's wrapper, ActionConfiguratorMixin.action_info; hand model, both
+   functions are shape-pinned).  Infos are numbers: 0 = the placeholder ActionInfo(None, 0, '', ''), 10+k = an explicit
+   `_info` argument, anything else = what the stack extraction yields for the calling frame (given per call site).
+   The stack `_ainfo` grows at the END (append) and the info reported is its FIRST element. *)
+Inductive call := Call (given : option N) (body : items) (fails : bool)
+with items := INil | IProbe (r : items) | ISub (c : call) (caught : bool) (r : items).
+
+Definition action_info_of (zcml : option N) (stk : list N) : N :=
+  match zcml with Some i => i | None => match stk with i :: _ => i | [] => 0%N end end.
+Definition info_of (given : option N) (site : N) : N := match given with Some k => (10 + k)%N | None => site end.
+Definition site_top : N := 1%N.
+Definition site_body : N := 2%N.
+
+(* -> (stack afterwards, (infos seen by the action() calls in order, an exception escapes)) *)
+Fixpoint run_call (zc : option N) (stk : list N) (site : N) (c : call) : list N * (list N * bool) :=
+  match c with
+  | Call given body fails =>
+      let '(stk1, (obs, raised)) := run_items zc (stk ++ [info_of given site]) body in
+      (removelast stk1, (obs, raised || fails))            (* finally: self._ainfo.pop() *)
+  end
+with run_items (zc : option N) (stk : list N) (b : items) : list N * (list N * bool) :=
+  match b with
+  | INil => (stk, ([], false))
+  | IProbe r => let '(s', (o, e)) := run_items zc stk r in (s', (action_info_of zc stk :: o, e))
+  | ISub c caught r =>
+      let '(s1, (o1, e1)) := run_call zc stk site_body c in
+      if e1 && negb caught then (s1, (o1, true))
+      else let '(s2, (o2, e2)) := run_items zc s1 r in (s2, (o1 ++ o2, e2))
+  end.
+
+(* a history of statements on one configurator (an escaping exception is caught by the application) *)
+Fixpoint run_statements (zc : option N) (stk : list N) (cs : list call) : list N * list (list N) :=
+  match cs with
+  | [] => (stk, [])
+  | c :: r => let '(s1, (o, _)) := run_call zc stk site_top c in
+              let '(s2, os) := run_statements zc s1 r in (s2, o :: os)
+  end.
+
+Fixpoint parse_call (fuel : nat) (v : val) : option call :=
+  match fuel with
+  | O => None
+  | S n => match v with
+           | VL [g; VL its; VI f] =>
+               olet g := get_opt get_N g in olet b := parse_items n its in Some (Call g b (negb (Z.eqb f 0)))
+           | _ => None
+           end
+  end
+with parse_items (fuel : nat) (l : list val) : option items :=
+  match fuel with
+  | O => None
+  | S n => match l with
+           | [] => Some INil
+           | VL [VI 0%Z] :: r => olet r' := parse_items n r in Some (IProbe r')
+           | VL [VI 1%Z; c; VI k] :: r =>
+               olet c' := parse_call n c in olet r' := parse_items n r in Some (ISub c' (negb (Z.eqb k 0)) r')
+           | _ => None
+           end
+  end.
+
 (* ---- wire glue *)
 Definition get_intr (v : val) : option intr :=
   match v with
@@ -324,6 +392,10 @@ Definition run_C20 (v : val) : val :=
                   | Ok s => all_entries s
                   | Err e => put_err e
                   end])
+    | VL [VI 3%Z; VL cs] =>
+        olet cs := map_opt (parse_call 200) cs in
+        let '(stk, os) := run_statements None [] cs in
+        Some (VL [VL (map (fun o => VL (map vN o)) os); vN (action_info_of None stk)])
     | VL [VI 1%Z] => Some (VL [vbool tables_ok; vbool documented_ok;
                            VL (map (fun ck => VL [VT (fst ck); VT (snd ck)]) undocumented_missing)])
     | _ => None
